@@ -2,6 +2,7 @@ import SctpVerif.Proofs.NetSys.PRTake
 import SctpVerif.Proofs.NetSys.PRLost
 import SctpVerif.Proofs.NetSys.PRLostDec
 import SctpVerif.Proofs.NetSys.PRLostGood
+import SctpVerif.Proofs.NetSys.PRLostFwd
 import SctpVerif.Proofs.NetSys.Proj
 /-!
 # C07 — the composition with FORWARD-TSN: sender half + adversarial network + receiver half (`NetSysPR`)
@@ -305,6 +306,46 @@ theorem C07_netsys_nothing_lost_fwdok_partial (P : Params) (ops : List Op) (si :
     (univOf_mem hu si) (by rw [hl]; exact hlen) K (hgood_of_run P ops hifw hok hu si) hfw
   refine ⟨hw, D, d1, d2, fun k hk => by rw [← hl]; exact d3 k hk, by rw [← hw]; exact d4, fun k hk => d5 k (by rw [hl]; exact hk)⟩
 
+/-- ✱ **NetSysPR, ordered DATA: nothing that is not abandoned is lost — premises are decidable RUN predicates only.**
+For every run of NetSysPR (sender + history network carrying DATA and FORWARD-TSN with loss, duplication, reordering, late
+copies + receiver; arbitrary gap blocks, a_rwnd, RACK marks, T3, burst budgets) such that
+* `RunOk`: MTU < 2^30, PR negotiated, SOUND SACKs (`SackSound`), < 2^31 chunks in flight / TSNs assigned;
+* `OrdOnly`: every stream ordered, ANY reliability policy, no stream reset (this is `NoReset` plus "no unordered stream");
+* DATA / FORWARD-TSN (no interleaving, no I-FORWARD-TSN), no entry limit, < 2^31 chunks written;
+* `SelContig` (message-contiguous per-stream FIFO selection: `C17_contiguous`, `C17_fragment_order`) and `FifoU` (the same FIFO
+  read off the TSN offsets of the universe: a chunk of the stream with SSN `L` gets its TSN after every fragment of the stream's
+  messages below `L`) — `FifoU` is implied by FIFO selection but is taken as a (decidable) premise, not derived from `SelContig`;
+* fewer than 2^15 messages written on the stream (D15 in its plain form):
+on the stream `si`, with `K k` = "message `k` of the stream is abandoned by the sender at the end of the run" (`KOf`), the reads
+are `D.map message` for a STRICTLY INCREASING `D`: a subsequence of `writesOn P si` — the application's own writes, in write
+order, each at most once, whole — and every message that is NOT abandoned and all of whose fragments were handed to the
+reassembly queue has been read or sits complete in the queue where the next reads find it. Both premises of
+`C07_netsys_nothing_lost_partial` are derived: the universe link (`hgood_of_run`) and the honest-sender premise of every
+FORWARD-TSN the receiver takes (`fwdok_of_run`, from the composed invariant behind `C07_netsys_skip_is_safe`, `moved_ident`,
+`C07_abandonment_monotone`, `pushed_eq`). -/
+theorem C07_netsys_nothing_lost (P : Params) (ops : List Op) (si : BitVec 16)
+    (hil : P.cfg.useInterleaving = false) (hifw : P.cfg.useIForwardTSN = false) (hme : P.maxEntries = 0)
+    (hok : RunOk P ops) (hord : NetSys.OrdOnly ops = true) (hsel : NetSys.SelContig P ops = true)
+    (hN : NetSys.chunksWritten P ops < 2^31) (hlen : (writesOn P si (init P) ops).length < 2^15)
+    (hfifo : FifoU P ops si = true) :
+    (streamOf P ops si).msgs.map Reasm.Msg.out = writesOn P si (init P) ops ∧
+    ∃ D : List Nat,
+      readsOn P si (init P) ops = D.map (fun k => Reasm.Msg.out ((streamOf P ops si).msg k)) ∧
+      D.Pairwise (· < ·) ∧ (∀ k ∈ D, k < (writesOn P si (init P) ops).length) ∧
+      (readsOn P si (init P) ops).Sublist (writesOn P si (init P) ops) ∧
+      (∀ k, k < (writesOn P si (init P) ops).length → KOf P ops si k = false →
+        (∀ i, i < (streamOf P ops si).nf k → ((streamOf P ops si).dataFrag k i).tsn ∈ pushed P (init P) ops) →
+        k ∈ D ∨ (streamOf P ops si).concSet (k, List.range ((streamOf P ops si).nf k)) ∈
+          (Receiver.qOf (run P (init P) ops).rcv si).ordered) := by
+  have hu := NetSys.ufacts P ops hil hord hsel hN
+  have hw := univ_writes hu si
+  have hl : (streamOf P ops si).msgs.length = (writesOn P si (init P) ops).length := by
+    have := congrArg List.length hw
+    simp only [List.length_map] at this
+    exact this
+  exact C07_netsys_nothing_lost_fwdok_partial P ops si (KOf P ops si) hil hifw hme hok hord hsel hN hlen
+    (fwdok_of_run P ops hok hu si (by rw [← hl] at hlen; exact hlen) hfifo)
+
 /-! ### non-vacuity of the two theorems above: concrete runs that MEET ALL their hypotheses
 
 The premises `GoodChunkS` / `FwdOk` (incl. `EntOk`) / `hgood` quantify over decompositions of the run; they are exhibited through
@@ -414,6 +455,17 @@ set_option maxRecDepth 1000000 in
 example : S2.msgs.map Reasm.Msg.out = writesOn PX 2 (init PX) opsX ∧ S1.msgs.map Reasm.Msg.out = writesOn PX 1 (init PX) opsX ∧
     readsOn PX 2 (init PX) opsX = [1].map (fun k => Reasm.Msg.out (S2.msg k)) ∧
     readsOn PX 1 (init PX) opsX = [0].map (fun k => Reasm.Msg.out (S1.msg k)) := by decide
+
+-- `C07_netsys_nothing_lost` on the run `opsX`: every premise is a decidable predicate of the run and holds
+set_option maxRecDepth 1000000 in
+private theorem ordX : NetSys.OrdOnly opsX = true ∧ NetSys.SelContig PX opsX = true ∧ NetSys.chunksWritten PX opsX < 2^31 ∧
+    (writesOn PX 2 (init PX) opsX).length < 2^15 ∧ (writesOn PX 1 (init PX) opsX).length < 2^15 ∧
+    FifoU PX opsX 2 = true ∧ FifoU PX opsX 1 = true := by decide
+-- stream 2 (rexmit 0; both messages end up abandoned) and the reliable stream 1 (not abandoned: `KOf … 0 = false`)
+set_option maxRecDepth 1000000 in
+example : KOf PX opsX 2 0 = true ∧ KOf PX opsX 2 1 = true ∧ KOf PX opsX 1 0 = false := by decide
+example := C07_netsys_nothing_lost PX opsX 2 rfl rfl rfl okX ordX.1 ordX.2.1 ordX.2.2.1 ordX.2.2.2.1 ordX.2.2.2.2.2.1
+example := C07_netsys_nothing_lost PX opsX 1 rfl rfl rfl okX ordX.1 ordX.2.1 ordX.2.2.1 ordX.2.2.2.2.1 ordX.2.2.2.2.2.2
 
 -- test (receive half alone, by evaluation): stream 3, message 0 (one fragment) abandoned and never delivered, message 1 (two
 -- fragments) reliable. The FORWARD-TSN naming (3, SSN 0) arrives FIRST (the stream does not exist yet), then the fragments
